@@ -25,7 +25,7 @@ def run(ctx):
     symrun.run(ctx, kernels=KERNELS)
     thorough = ctx.tier == "thorough"
     exprun.run_property(ctx, "C:minmax", "C05", ops=OPS,
-                        classes=("random", "boundary", "special", "small", "extreme") if thorough else ("random", "special", "extreme"),
+                        classes=("random", "boundary", "special", "small", "extreme", "onesign") if thorough else ("random", "special", "extreme", "onesign"),
                         lens_fn=exprun.full_lens if thorough else exprun.quick_lens,
                         places=("R", "L", "3") if thorough else ("R",), seed_tag=5)
     entries = [(i, s) for i, s in enumerate(facts.get("safe_entries", []))
@@ -35,4 +35,4 @@ def run(ctx):
                           (("stable", [0, 2, 4, 6]), ("debug", [0, 6]), ("nightly", [0, 1, 3, 7]))):
         cases, meta = saferun.gen_safe_cases(ctx, facts, config, entries, lens, [(0, 0, 0, 0)], masks, seed_tag=55,
                                              cls="boundary" if thorough else "random")
-        saferun.compare_safe(ctx, config, cases, meta, "D:safe-minmax")
+        saferun.compare_safe(ctx, config, cases, meta, "D:safe-minmax", spec_pid="C05")
